@@ -19,6 +19,8 @@ for d in sorted(os.listdir(os.path.join(V, "seeded"))):
     needs = needs[:170] + ("…" if len(needs) > 170 else "")
     if m.get("obsolete"):
         res = "— obsolete: " + str(m.get("obsolete"))[:120].replace("|", "/")
+    elif m.get("status_after_repairs"):
+        res = "HELD, correctly — " + str(m.get("status_after_repairs"))[:260].replace("|", "/")
     else:
         r = log.get(d, "")
         if "PATCH DOES NOT APPLY" in r:
